@@ -159,9 +159,10 @@ impl ServerState {
           &mut error_set,
         );
         self.string_sources.insert(new_mod_ref, source);
+        // The signature mentions the module's own reference in its types: build it for the new name.
+        self.global_cx.remove(&old_mod_ref);
+        self.global_cx.insert(new_mod_ref, build_module_signature(new_mod_ref, &parsed));
         self.parsed_modules.insert(new_mod_ref, parsed);
-        let mod_cx = self.global_cx.remove(&old_mod_ref).unwrap();
-        self.global_cx.insert(new_mod_ref, mod_cx);
       }
       self.checked_modules.remove(&old_mod_ref);
     }
